@@ -1,5 +1,6 @@
 import WK.Proofs.C17_meta
 import WK.Proofs.C17_step
+import WK.Proofs.C17_safe
 /-
   C17 — Channel migration cutover is fenced and irreversible.
 
@@ -100,6 +101,276 @@ theorem c17_commit_needs_proof (db : State) (c : Cmd) (hk : c.kind = .commit ∨
       · rcases hk with hk | hk
         · simp only [mutate, hk] at hmut; exact (mutCommit_ok c t nt m nm0 hmut).2.1
         · simp only [mutate, hk] at hmut; exact (mutPromote_ok c t nt m nm0 hmut).2.1
+
+/-- non-vacuity and concrete shape: a leader transfer at CommitLeaderMeta holding the fence with a
+    matching proof commits (leader 1 → 2, leader epoch 1 → 2) -/
+def exFencedMeta : Meta :=
+  { cep := 1, lep := 1, rgen := 0, leader := 1, minisr := 2, lease := 100, replicas := [1, 2, 3], isr := [1, 2, 3],
+    ftok := 1, fver := 1, freason := 1, funtil := 200 }
+
+def exDrained : Task :=
+  { exTask 1 1 1 2 6 with ftok := 1, fver := 1, funtil := 200, leo := 10, hw := 10, dnode := 1, drgen := 1, dcep := 1, dlep := 1, dfv := 1 }
+
+def exCommit : Cmd :=
+  { kind := .commit, g := { chan := 1, id := 1, est := 2, eph := 6, eown := 0, eolease := 0, eupd := 10 },
+    rg := { chan := 1, ecep := 1, elep := 1, eld := 1, etok := 1, efver := 1, ergen := 0 },
+    st := 2, ph := 7, desired := 2, nle := 2, lease := 300, now := 50, upd := 11 }
+
+def exCommitted : State := run State.empty [.setmeta 1 exFencedMeta, .batch [exCreate exDrained], .batch [exCommit]]
+
+example : (exCommitted.meta? 1).map Meta.authority = some (2, 2, [1, 2, 3]) ∧
+          (exCommitted.task? 1 1).map (·.phase) = some 7 := by decide
+
+/-- the same commit with a proof drained under another leader epoch is refused -/
+example : (run State.empty [.setmeta 1 exFencedMeta, .batch [exCreate { exDrained with dlep := 2 }], .batch [exCommit]]).meta? 1
+            = (run State.empty [.setmeta 1 exFencedMeta]).meta? 1 := by decide
+
+/-! ## 3. a committed / promoted task can no longer be aborted -/
+
+/-- the abort command's preconditions fail on the task row `(ch,i)` (or the row is gone) -/
+def Safe (s : State) (ch i : Nat) : Prop := ∀ t, s.task? ch i = some t → t.abortable = false
+
+/-- commands that can move a protected row back into an abortable state: a (re-)create of the id,
+    the free-form Claim / Advance, ResetChannelWriteFenceToPreCutover, and the designed hand-off
+    ClearChannelWriteFence → Running/AddLearner that closes an EMBEDDED transfer -/
+def Rewinds (c : Cmd) (ch i : Nat) : Prop :=
+  ((c.kind = .create ∨ c.kind = .createg) ∧ c.task.chan = ch ∧ c.task.id = i) ∨
+  (c.g.chan = ch ∧ c.g.id = i ∧
+    (c.kind = .claim ∨ c.kind = .advance ∨ c.kind = .resetfence ∨ (c.kind = .clearfence ∧ c.st = 2)))
+
+def LineRewinds (l : Line) (ch i : Nat) : Prop :=
+  match l with
+  | .setmeta _ _ => False
+  | .batch cs => ∃ c ∈ cs, Rewinds c ch i
+
+theorem gc_dels (db : State) (b l : Nat) : ∀ w ∈ gcWrites db b l, ∃ c i, w = W.delTask c i := by
+  unfold gcWrites
+  exact gcGo_dels b l _ 0
+
+theorem task?_after_taskMeta (db : State) (nt : Task) (ws : List W) (rc : Nat) (nm : Meta)
+    (hw : upsertWrites db nt = .ok ws) (ch i : Nat) :
+    (applyWs db (ws ++ [W.putMeta rc nm])).task? ch i = if nt.chan = ch ∧ nt.id = i then some nt else db.task? ch i := by
+  rw [applyWs_append, applyWs_cons, applyWs_nil, task?_putMeta]
+  exact (upsert_lookup db nt ws hw).1 ch i
+
+theorem safe_applySingle (db : State) (c : Cmd) (ch i : Nat) (hs : Safe db ch i) (hr : ¬ Rewinds c ch i) :
+    Safe (applySingle db c).1 ch i := by
+  rcases applySingle_state db c with h | ⟨ws, ho, h⟩
+  · rw [h]; exact hs
+  · rw [h]
+    cases ho with
+    | nothing => exact hs
+    | create ws hk _ hw =>
+      intro t ht
+      rw [(upsert_lookup db c.task ws hw).1 ch i] at ht
+      split at ht
+      · rename_i hkey; exact absurd (Or.inl ⟨hk, hkey.1, hkey.2⟩) hr
+      · exact hs t ht
+    | taskOnly t0 nt ws hk ht0 hg hmut hw =>
+      intro t ht
+      rw [(upsert_lookup db nt ws hw).1 ch i] at ht
+      split at ht
+      · rename_i hkey
+        have k1 := mutTaskOnly_key c t0 nt hmut
+        have k2 := guard_key c.g t0 hg
+        exfalso; apply hr; right
+        refine ⟨by omega, by omega, ?_⟩
+        rcases hk with hk | hk
+        · exact Or.inl hk
+        · exact Or.inr (Or.inl hk)
+      · exact hs t ht
+    | gc _ =>
+      intro t ht
+      rcases (dels_lookup db _ (gc_dels db c.before c.limit)).2 ch i with h' | h'
+      · rw [h'] at ht; exact hs t ht
+      · rw [h'] at ht; cases ht
+    | taskMeta t0 nt m nm0 ws' hk ht0 hm hmut hg hrg hterm _ _ hw =>
+      intro t ht
+      rw [task?_after_taskMeta db nt ws' _ _ hw ch i] at ht
+      split at ht
+      · rename_i hkey
+        simp at ht; rw [← ht]
+        have k1 := mutate_key c t0 nt m nm0 hmut
+        have k2 := guard_key c.g t0 hg
+        have hg1 : c.g.chan = ch := by omega
+        have hg2 : c.g.id = i := by omega
+        have hs0 : t0.abortable = false := hs t0 (by rw [← hg1, ← hg2]; exact ht0)
+        apply mutate_safe c t0 nt m nm0 hmut hs0 hterm
+        · intro hk'; exact hr (Or.inr ⟨hg1, hg2, Or.inr (Or.inr (Or.inl hk'))⟩)
+        · intro hk'; exact hr (Or.inr ⟨hg1, hg2, Or.inr (Or.inr (Or.inr hk'))⟩)
+      · exact hs t ht
+
+theorem safe_stepLine (s : State) (l : Line) (hl : l.single = true) (ch i : Nat) (hs : Safe s ch i)
+    (hr : ¬ LineRewinds l ch i) : Safe (stepLine s l) ch i := by
+  cases l with
+  | setmeta c m =>
+    intro t ht
+    apply hs t
+    simp only [stepLine, setMeta] at ht
+    split at ht <;> exact ht
+  | batch cs =>
+    match cs, hl with
+    | [c], _ =>
+      simp only [stepLine]
+      rw [applyBatch_single]
+      apply safe_applySingle s c ch i hs
+      intro hrw
+      exact hr ⟨c, List.mem_cons_self, hrw⟩
+
+theorem safe_run (ls : List Line) (ch i : Nat) (hsingle : ∀ l ∈ ls, l.single = true)
+    (hr : ∀ l ∈ ls, ¬ LineRewinds l ch i) (s : State) (hs : Safe s ch i) : Safe (run s ls) ch i := by
+  induction ls generalizing s with
+  | nil => exact hs
+  | cons l rest ih =>
+    simp only [run, List.foldl]
+    exact ih (fun l hl => hsingle l (List.mem_cons_of_mem _ hl)) (fun l hl => hr l (List.mem_cons_of_mem _ hl)) _
+      (safe_stepLine s l (hsingle l List.mem_cons_self) ch i hs (hr l List.mem_cons_self))
+
+/-- an accepted cutover makes the task row safe -/
+theorem cutover_establishes_safe (db : State) (c : Cmd) (hk : c.kind = .commit ∨ c.kind = .promote)
+    (hacc : (applySingle db c).1 ≠ db) : Safe (applySingle db c).1 c.g.chan c.g.id := by
+  rcases applySingle_state db c with h | ⟨ws, ho, h⟩
+  · exact absurd h hacc
+  · cases ho with
+    | nothing => exact absurd h hacc
+    | create ws hk' _ _ => rcases hk with hk | hk <;> rcases hk' with hk' | hk' <;> (rw [hk] at hk'; cases hk')
+    | taskOnly t nt ws hk' _ _ _ _ => rcases hk with hk | hk <;> rcases hk' with hk' | hk' <;> (rw [hk] at hk'; cases hk')
+    | gc hk' => rcases hk with hk | hk <;> (rw [hk] at hk'; cases hk')
+    | taskMeta t0 nt m nm0 ws' _ ht0 hm hmut hg hrg _ _ _ hw =>
+      rw [h]
+      intro t ht
+      rw [task?_after_taskMeta db nt ws' _ _ hw] at ht
+      have k1 := mutate_key c t0 nt m nm0 hmut
+      have k2 := guard_key c.g t0 hg
+      rw [if_pos ⟨by omega, by omega⟩] at ht
+      simp at ht; rw [← ht]
+      exact cutover_safe c hk t0 nt m nm0 hmut
+
+/-- an abort aimed at a safe row changes nothing -/
+theorem abort_refused (db : State) (a : Cmd) (hk : a.kind = .abort) (hs : Safe db a.g.chan a.g.id) :
+    (applySingle db a).1 = db := by
+  rcases applySingle_state db a with h | ⟨ws, ho, h⟩
+  · exact h
+  · cases ho with
+    | nothing => exact h
+    | create ws hk' _ _ => rcases hk' with hk' | hk' <;> (rw [hk] at hk'; cases hk')
+    | taskOnly t nt ws hk' _ _ _ _ => rcases hk' with hk' | hk' <;> (rw [hk] at hk'; cases hk')
+    | gc hk' => rw [hk] at hk'; cases hk'
+    | taskMeta t0 nt m nm0 ws' _ ht0 hm hmut _ _ _ _ _ _ =>
+      exfalso
+      simp only [mutate, hk] at hmut
+      have := mutAbort_needs_abortable a t0 nt m nm0 hmut
+      rw [hs t0 ht0] at this; cases this
+
+/-- **No abort after commit (partial).**  Once a CommitChannelLeaderTransfer or
+    PromoteLearnerAndRemoveReplica on task `(ch,i)` was accepted, then after EVERY later history of
+    single-command applies and metadata writes that contains no rewinding command for that task
+    (hypothesis `NoRewind`: no re-create of the id, no Claim/Advance, no
+    ResetChannelWriteFenceToPreCutover, no embedded hand-off), an AbortChannelMigration aimed at
+    the task is refused: it leaves the whole store unchanged. -/
+theorem c17_no_abort_after_commit_partial (db : State) (c0 : Cmd) (hk : c0.kind = .commit ∨ c0.kind = .promote)
+    (hacc : (applySingle db c0).1 ≠ db)
+    (ls : List Line) (hsingle : ∀ l ∈ ls, l.single = true)
+    (NoRewind : ∀ l ∈ ls, ¬ LineRewinds l c0.g.chan c0.g.id)
+    (a : Cmd) (ha : a.kind = .abort) (hat : a.g.chan = c0.g.chan ∧ a.g.id = c0.g.id) :
+    (applySingle (run (applySingle db c0).1 ls) a).1 = run (applySingle db c0).1 ls := by
+  apply abort_refused _ a ha
+  rw [hat.1, hat.2]
+  exact safe_run ls _ _ hsingle NoRewind _ (cutover_establishes_safe db c0 hk hacc)
+
+def exAbort (upd : Nat) (eph elep eld : Nat) (etok efver : Nat) : Cmd :=
+  { kind := .abort, g := { chan := 1, id := 1, est := 2, eph := eph, eown := 0, eolease := 0, eupd := upd },
+    rg := { chan := 1, ecep := 1, elep := elep, eld := eld, etok := etok, efver := efver, ergen := 0 },
+    st := 6, ph := eph, upd := upd + 1, comp := 99 }
+
+/-- non-vacuity of the partial theorem: right after the commit the abort is refused -/
+example : (applySingle exCommitted (exAbort 11 7 2 2 1 1)).1 = exCommitted := by decide
+
+def exRewind : Cmd :=
+  { kind := .advance, g := { chan := 1, id := 1, est := 2, eph := 7, eown := 0, eolease := 0, eupd := 11 }, st := 2, ph := 1, upd := 12 }
+
+/-- The full statement is false of the code: a free-form Advance moves the committed task back to
+    phase Validate, after which AbortChannelMigration is accepted (status Aborted = 6) although the
+    leader change stays committed.  (Reproduced on the real FSM.) -/
+theorem c17_no_abort_after_commit_counterexample_advance :
+    ((run exCommitted [.batch [exRewind], .batch [exAbort 12 1 2 2 1 1]]).task? 1 1).map (·.status) = some 6 ∧
+    ((run exCommitted [.batch [exRewind], .batch [exAbort 12 1 2 2 1 1]]).meta? 1).map (·.leader) = some 2 := by
+  decide
+
+def exReset : Cmd :=
+  { kind := .resetfence, g := { chan := 1, id := 1, est := 2, eph := 7, eown := 0, eolease := 0, eupd := 11 },
+    rg := { chan := 1, ecep := 1, elep := 2, eld := 2, etok := 1, efver := 1, ergen := 0 }, st := 2, ph := 2, now := 900, upd := 12 }
+
+/-- ... and without any free-form command: once the fence lease has expired,
+    ResetChannelWriteFenceToPreCutover takes the committed task (phase VerifyNewLeader) back to
+    ProbeTarget, and the abort is then accepted.  (Reproduced on the real FSM.) -/
+theorem c17_no_abort_after_commit_counterexample_resetfence :
+    ((run exCommitted [.batch [exReset], .batch [exAbort 12 2 2 2 0 2]]).task? 1 1).map (·.status) = some 6 ∧
+    ((run exCommitted [.batch [exReset], .batch [exAbort 12 2 2 2 0 2]]).meta? 1).map (·.leader) = some 2 := by
+  decide
+
+/-! ## 4. no command changes or clears another task's fence -/
+
+/-- **Foreign fence safety (partial).**  Let channel `x` carry a fence with token `k ≠ ""`, so its
+    owner is task `(x,k)`.  A single command whose task guard and runtime guard name the SAME channel
+    (hypothesis `SameChannel`) and whose task is not the owner leaves the four fence fields of `x`
+    exactly as they were. -/
+theorem c17_foreign_fence_safe_partial (db : State) (c : Cmd) (SameChannel : c.g.chan = c.rg.chan)
+    (x : Nat) (m : Meta) (hm : db.meta? x = some m) (hf : m.ftok ≠ 0)
+    (hforeign : ¬ (c.g.chan = x ∧ c.g.id = m.ftok)) :
+    ((applySingle db c).1.meta? x).map Meta.fence = some m.fence := by
+  rcases applySingle_state db c with h | ⟨ws, ho, h⟩
+  · rw [h, hm]; rfl
+  · rw [h]
+    cases ho with
+    | nothing => rw [applyWs_nil, hm]; rfl
+    | create ws _ _ hw => rw [meta?_of_metas _ _ (upsert_lookup db _ ws hw).2, hm]; rfl
+    | taskOnly t nt ws _ _ _ _ hw => rw [meta?_of_metas _ _ (upsert_lookup db _ ws hw).2, hm]; rfl
+    | gc _ => rw [meta?_of_metas _ _ (dels_lookup db _ (gc_dels db c.before c.limit)).1, hm]; rfl
+    | taskMeta t0 nt m0 nm0 ws' _ ht0 hm0 hmut hg _ _ _ _ hw =>
+      rw [applyWs_append, applyWs_cons, applyWs_nil, meta?_putMeta]
+      split
+      · rename_i hx
+        rw [hx, hm0] at hm
+        simp at hm
+        subst hm
+        simp only [Option.map]
+        rw [fence_norm_bump]
+        have k2 := guard_key c.g t0 hg
+        congr 1
+        apply mutate_foreign c t0 nt m0 nm0 hmut hf
+        intro he
+        exact hforeign ⟨by omega, by omega⟩
+      · rw [meta?_of_metas _ _ (upsert_lookup db _ ws' hw).2, hm]; rfl
+
+def exMeta (ftok fver : Nat) : Meta :=
+  { cep := 1, lep := 1, rgen := 0, leader := 1, minisr := 2, lease := 100, replicas := [1, 2, 3], isr := [1, 2, 3],
+    ftok := ftok, fver := fver, freason := if ftok = 0 then 0 else 1, funtil := if ftok = 0 then 0 else 200 }
+
+def exHolder (c : Nat) (phase : Nat) : Task := { exTask c 1 1 2 phase with ftok := 1, fver := 1, funtil := 200 }
+
+def exForeignState : State :=
+  run State.empty [.setmeta 1 (exMeta 1 1), .setmeta 2 (exMeta 1 1), .batch [exCreate (exHolder 1 7)], .batch [exCreate (exHolder 2 4)]]
+
+/-- task ("ca","t1") clears the fence of channel "cb" -/
+def exCrossClear : Cmd :=
+  { kind := .clearfence, g := { chan := 1, id := 1, est := 2, eph := 7, eown := 0, eolease := 0, eupd := 10 },
+    rg := { chan := 2, ecep := 1, elep := 1, eld := 1, etok := 1, efver := 1, ergen := 0 }, st := 4, ph := 27, upd := 11, comp := 99 }
+
+/-- non-vacuity of the partial theorem: the same command aimed at its own channel is the owner's
+    command (allowed); a different task id on channel 2 is foreign and refused -/
+example : ((applySingle exForeignState { exCrossClear with g := { exCrossClear.g with id := 2 }, rg := { exCrossClear.rg with chan := 1 } }).1.meta? 1).map Meta.fence
+    = some (1, 1, 1, 200) := by decide
+
+/-- The full statement is false of the code: task ids are unique only per channel, the guards
+    compare tokens with task ids but never the two channel ids of a request, so task ("ca","t1")
+    clears the fence that ("cb","t1") holds on channel "cb" (and completes while the fence on its
+    own channel stays set).  (Reproduced on the real FSM.) -/
+theorem c17_foreign_fence_cross_channel_counterexample :
+    (exForeignState.meta? 2).map Meta.fence = some (1, 1, 1, 200) ∧
+    ((applySingle exForeignState exCrossClear).1.meta? 2).map Meta.fence = some (0, 2, 0, 0) ∧
+    ((applySingle exForeignState exCrossClear).1.task? 2 1).map (·.ftok) = some 1 := by
+  decide
 
 /-! ## 5. stored metadata stays valid -/
 
